@@ -366,3 +366,83 @@ def r7(ctx):
                    f"returns {o.value!r} after {len(sends)} transport write(s)" if ok else
                    f"with dispatcher={label} _send returns {o.value!r} instead of the count the transport accepted: after a short write the rest of the frame is never sent",
                    idx.loc(idx.func(f"{W}._send").node), {"path": path_text(o)})
+
+
+@rule("R-C12-8", min_instances=1, title="one preemption: a second thread's send() injected at every statement boundary of send_frame never lands inside the first thread's frame")
+def r8(ctx):
+    """Bounded schedule exploration on the abstract program: the other thread runs its whole send_frame atomically at the
+    chosen point, unless the send lock is held by the analysed thread, in which case it blocks and runs when the lock
+    is released (threading.Lock semantics; a NoLock never blocks)."""
+    idx = ctx.index
+    q = f"{W}.send_frame"
+    loc = idx.loc(idx.func(q).node)
+    stubs = dict(BASE_STUBS)
+    stubs["_abnf:ABNF.format"] = lambda I, run, a, k, n: Sym("wire" + run.memo.get("@thread", "A"), "bytes")
+
+    def _send(I, run, args, kwargs, node):
+        th = run.memo.get("@thread", "A")
+        k = len([e for e in run.effects if e.name == "_send"])
+        l = isym(run, f"accepted{k}", 1, INF)
+        run.effect("_send", args[1:], {"thread": C(th)}, node=node, ret=l)
+        return l
+
+    stubs[f"{W}._send"] = _send
+
+    def action(I, run, st):
+        ws = next(a for a, c in run.heap.items() if getattr(c, "label", "") == "ws")
+        wsr = Ref(ws)
+
+        def other():
+            prev = run.memo.get("@thread", "A")
+            run.memo["@thread"] = "B"
+            run.memo["@in_preempt"] = True
+            try:
+                fr = new_obj(run, "_abnf:ABNF", "frameB", get_mask_key=Ext("os.urandom"))
+                run.assume_range(App("len", (Sym("wireB", "bytes"),), "int"), 2, INF)
+                I.call(run, I.getattr(run, wsr, "send_frame", None), [fr], {}, st)
+            finally:
+                run.memo["@thread"] = prev
+                run.memo["@in_preempt"] = False
+
+        lock = run.cell(wsr).fields.get("lock")
+        real = isinstance(lock, Sym) and lock.name.startswith("Lock#")
+        if real and lock.key() in run.held:
+            run.effect("--thread B blocks on the send lock")
+            run.deferred.setdefault(lock.key(), []).append(other)
+        else:
+            other()
+
+    for mt in (TRUE,):
+        cfg = Config(stubs=stubs, loop_unroll=3, max_paths=200000)
+        cfg.preempt_in = {q}
+        cfg.preempt_action = action
+        I = Interp(idx, cfg)
+
+        def body(run):
+            ws = mk_websocket(I, run, enable_multithread=mt)
+            run.assume_range(App("len", (Sym("wireA", "bytes"),), "int"), 2, INF)
+            fr = new_obj(run, "_abnf:ABNF", "frameA", get_mask_key=Ext("os.urandom"))
+            return I.call(run, I.getattr(run, ws, "send_frame", None), [fr], {}, None)
+
+        outs = ctx.count_paths(I.explore(body))
+        n = 0
+        bad = None
+        points = set()
+        for o in outs:
+            at = o.run.memo.get("@preempted")
+            if not at:
+                continue
+            seq = "".join(e.kwargs["thread"].v for e in o.effects if e.name == "_send")
+            if "A" not in seq or "B" not in seq:
+                continue
+            n += 1
+            points.add(at)
+            import re as _re
+            if not _re.fullmatch(r"A+B+|B+A+", seq):
+                bad = bad or (seq, at, o)
+        if n == 0 or len(points) < 3:
+            raise AnalysisError(f"only {len(points)} preemption points with writes of both threads")
+        ctx.ob(f"{q}:one-preemption:frames-not-interleaved", bad is None,
+               f"{n} schedules over {len(points)} preemption points: the wire carries whole frames in some serial order" if bad is None else
+               f"a second thread sending at {bad[1]} yields the write order {bad[0]} (A = first thread's pieces, B = second thread's): frames interleave on the wire",
+               bad[1] if bad else loc, {"order": bad[0], "path": path_text(bad[2], 12)} if bad else None)
